@@ -40,13 +40,14 @@ CLAIMED = {
    technique='Coq proof over hand model + translated kernels, correspondence check, direct API decision',
    ref='DESIGN.md section 6 C11'),
  'C10': dict(
-   text='PARTIAL proof + direct decision. Proved: (1) for the lossless bit reader (Model/BitReader.v, the only code that looks at how much fill_buf exposes; tied to lossless.rs by the c01model correspondence): '
-        'for EVERY byte string, EVERY pair of fill_buf schedules and EVERY script of fill / read_bits / consume / peek operations the values delivered, the outcome and the observable final state are equal; both refill paths agree; over a fill_buf that fails once (Model/BitReaderIO.v, tied by the c10bits correspondence incl. call counts) a fault at call k of the fault-free run ends the run with the I/O error at exactly that operation after a prefix of the fault-free values (BRIO.bit_reader_fault_surfaces); '
-        '(2) std::io contract model with explicit delivery schedules (read_exact result and end position independent of the schedule; '
-        'UnexpectedEof for every schedule on short data; write_all output independent of how the sink splits writes; on a sink fault the result is an error and the sink holds a prefix). '
-        'Decided directly on the implementation every run: 8 schedule classes x corpus, one injected fault at every I/O call index with the result compared to the fault-free baseline, encoder sinks failing at every call / splitting writes.',
+   text='Coq theorems, model level: (1) the WHOLE lossless decoder (Model/LosslessIO.v = the decoder model over a reader whose fill_buf fails once; tied by the c10lossless correspondence incl. call counts): '
+        'LLIO.lossless_fault_surfaces -- for every data, schedule, dimensions, buffer and k, a fault at a call the fault-free run makes yields exactly the I/O error after k+1 calls (never Ok, never a panic, never another error), '
+        'a fault beyond changes nothing; LLIO.lossless_fault_never_partial -- on a spec-valid stream the result is the I/O error or exactly the specification pixels; RC.frame_schedule_independent -- same result for any two fill_buf '
+        'schedules; BR / BRIO -- the bit reader at script level. (2) the container layer (Model/ContainerIO.v, call counts exact): CIO.container_io_refines_pure, CIO.container_fault_surfaces (any failure kind but UnexpectedEof: '
+        'known finding F19, refuted for that kind with a replayed witness), getters likewise. (3) the encoder sink: same bytes for every split, a fault at a reached write gives an error with a prefix written. '
+        '(4) std read_exact / write_all contracts. Decided on the implementation every run (not modelled over failing readers): VP8 partition reads and the range-reader / alpha glue -- 8 schedule classes x corpus, one injected fault at every I/O call index with comparison to the fault-free baseline.',
    note='Trusted: Coq kernel; Lib/IO.v is a model of std default methods (read_exact, write_all), not of the OS; Model/BitReader.v is a hand model tied by correspondence (scripts under whole / constant / random schedules through a hook); propagation of faults through every `?` of the crate is decided on the implementation, not proved.',
-   technique='Coq proof (schedule independence of the bit reader model for all scripts; I/O contract model) + correspondence + fault/schedule enumeration on the implementation',
+   technique='Coq proof (fault law by induction over the decoder model, schedule independence through the specification, I/O-call-exact container model) + correspondence incl. call counts + fault/schedule enumeration on the implementation',
    ref='DESIGN.md section 6 C10'),
  'C03': dict(
    text='Coq safety theorems (no Panic outcome of the model = no panic / checked-arithmetic overflow / out-of-range index / failed assert of the Rust code it mirrors; no fuel exhaustion = termination) '
